@@ -155,6 +155,8 @@ type Arte struct {
 	Cred   map[string]any `json:"cred,omitempty"`
 	DIDDoc map[string]any `json:"diddoc,omitempty"`
 	Status map[string]any `json:"status,omitempty"`
+	// raw credential bytes (override Cred when set: member-name variants, duplicates)
+	CredRaw []byte `json:"cred_raw,omitempty"`
 	// raw HTTP answers of the resolvers (override DIDDoc / Status when set)
 	DIDRaw    *rawAnswer `json:"did_raw,omitempty"`
 	StatusRaw *rawAnswer `json:"status_raw,omitempty"`
@@ -172,7 +174,7 @@ func (b *Bundle) Arte() *Arte {
 }
 
 func (a *Arte) copy() *Arte {
-	return &Arte{Kind: a.Kind, Cred: cloneMap(a.Cred), DIDDoc: cloneMap(a.DIDDoc), Status: cloneMap(a.Status), DIDRaw: a.DIDRaw, StatusRaw: a.StatusRaw}
+	return &Arte{Kind: a.Kind, Cred: cloneMap(a.Cred), DIDDoc: cloneMap(a.DIDDoc), Status: cloneMap(a.Status), CredRaw: a.CredRaw, DIDRaw: a.DIDRaw, StatusRaw: a.StatusRaw}
 }
 
 // didAnswer / statusAnswer: the HTTP answers the resolvers will see
@@ -334,6 +336,10 @@ func RunVerify(a *Arte, loader *ctxload.Loader) (Verdict, *verifiable.W3CCredent
 	defer transport.del(key + "cred")
 	da := a.didAnswer()
 	cbody, _ := json.Marshal(a.Cred)
+	if a.CredRaw != nil {
+		// route the status ids of the raw text as well
+		cbody = bytes.ReplaceAll(a.CredRaw, []byte(`"`+statusHost), []byte(`"`+statusHost+key))
+	}
 	var vc verifiable.W3CCredential
 	var v Verdict
 	v.Decode = guard(watchdog, func() error { return json.Unmarshal(cbody, &vc) })
